@@ -1,0 +1,124 @@
+//! Guarded re-exports for external runtime monitors (feature `verif-hooks`).
+//!
+//! Exposes crate-private building blocks (membership, read fast paths) so that a
+//! harness outside this workspace can assemble a node exactly like `NodeBuilder::build()`
+//! does while substituting only the transport. Thin wrappers only — no behaviour here.
+
+use std::sync::Arc;
+use std::time::Duration;
+
+use bytes::Bytes;
+use d_engine_core::ClientCmd;
+use d_engine_core::RaftNodeConfig;
+use d_engine_core::ReadLease;
+use d_engine_core::StateMachine;
+use d_engine_core::TypeConfig;
+use d_engine_core::client::ClientApiResult;
+use d_engine_core::config::ReadConsistencyPolicy;
+use d_engine_proto::server::cluster::NodeMeta;
+use tokio::sync::mpsc;
+
+pub use crate::membership::MembershipSnapshot;
+pub use crate::membership::RaftMembership;
+
+/// `proto_convert::to_core_write_req`.
+pub fn to_core_write_req(
+    req: d_engine_proto::client::ClientWriteRequest
+) -> d_engine_core::client::ClientWriteRequest {
+    crate::proto_convert::to_core_write_req(req)
+}
+
+/// `proto_convert::to_core_read_req`.
+pub fn to_core_read_req(
+    req: d_engine_proto::client::ClientReadRequest
+) -> d_engine_core::client::ClientReadRequest {
+    crate::proto_convert::to_core_read_req(req)
+}
+
+/// `proto_convert::to_proto_response`.
+pub fn to_proto_response(
+    r: d_engine_core::client::ClientResponse
+) -> d_engine_proto::client::ClientResponse {
+    crate::proto_convert::to_proto_response(r)
+}
+
+/// `proto_convert::fast_path_batch_read_response`.
+pub fn fast_path_batch_read_response(
+    keys: &[Bytes],
+    values: Vec<Option<Bytes>>,
+) -> d_engine_proto::client::ClientResponse {
+    crate::proto_convert::fast_path_batch_read_response(keys, values)
+}
+
+/// `RaftMembership::new` (crate-private constructor).
+pub fn new_membership<T: TypeConfig>(
+    node_id: u32,
+    initial_nodes: Vec<NodeMeta>,
+    config: RaftNodeConfig,
+) -> (RaftMembership<T>, mpsc::Receiver<u32>) {
+    RaftMembership::new(node_id, initial_nodes, config)
+}
+
+/// The embedded-mode read fast path (`EmbeddedReadHandle`).
+pub struct VerifEmbeddedRead<T: TypeConfig>(crate::api::VerifEmbeddedReadHandle<T>);
+
+impl<T: TypeConfig> Clone for VerifEmbeddedRead<T> {
+    fn clone(&self) -> Self {
+        Self(self.0.clone())
+    }
+}
+
+impl<T: TypeConfig> VerifEmbeddedRead<T> {
+    pub fn new(
+        sm: Arc<T::SM>,
+        lease: Arc<ReadLease>,
+        cmd_tx: mpsc::Sender<ClientCmd>,
+    ) -> Self {
+        Self(crate::api::VerifEmbeddedReadHandle::new(sm, lease, cmd_tx))
+    }
+
+    pub async fn get_batch(
+        &self,
+        keys: &[Bytes],
+        consistency: ReadConsistencyPolicy,
+        client_id: u32,
+        timeout: Duration,
+    ) -> ClientApiResult<Vec<Option<Bytes>>> {
+        self.0.get_batch(keys, consistency, client_id, timeout).await
+    }
+}
+
+/// The standalone-mode read path (`StandaloneReadHandle` + `ReadActor`).
+#[derive(Clone)]
+pub struct VerifStandaloneRead(crate::api::StandaloneReadHandle);
+
+impl VerifStandaloneRead {
+    /// Spawns the real `run_read_actor` task on the current runtime and wires a
+    /// `StandaloneReadHandle` to it, as `NodeBuilder::build()` does.
+    pub fn spawn<SM: StateMachine>(
+        lease: Arc<ReadLease>,
+        sm: Arc<SM>,
+        cmd_tx: mpsc::Sender<ClientCmd>,
+        channel_capacity: usize,
+        max_drain: usize,
+    ) -> (Self, tokio::task::JoinHandle<()>) {
+        let (read_tx, read_rx) = mpsc::channel(channel_capacity);
+        let handle = tokio::spawn(crate::read_actor::run_read_actor(
+            read_rx, lease, sm, max_drain,
+        ));
+        (
+            Self(crate::api::StandaloneReadHandle::new(Some(read_tx), cmd_tx)),
+            handle,
+        )
+    }
+
+    pub async fn get_batch(
+        &self,
+        keys: &[Bytes],
+        consistency: ReadConsistencyPolicy,
+        client_id: u32,
+        timeout: Duration,
+    ) -> ClientApiResult<Vec<Option<Bytes>>> {
+        self.0.get_batch(keys, consistency, client_id, timeout).await
+    }
+}
